@@ -81,12 +81,15 @@ public:
         if (!m_thread)
             return;
 
+        QTLOGGER_VERIF_POINT("reset.locked");
         while (m_pendingCount.loadAcquire() > 0) {
+            QTLOGGER_VERIF_POINT("reset.waiting");
             locker.unlock();
             QThread::msleep(10);
             locker.relock();
         }
 
+        QTLOGGER_VERIF_POINT("reset.quit");
         m_thread->quit();
 
         if (!m_thread->wait(3000)) {
@@ -100,11 +103,14 @@ public:
 
     bool process(LogMessage &lmsg) override
     {
+        QTLOGGER_VERIF_POINT("own.before_lock");
         QMutexLocker locker(&m_mutex);
+        QTLOGGER_VERIF_POINT("own.locked");
 
         if (m_worker) {
             m_pendingCount.fetchAndAddOrdered(1);
             QCoreApplication::postEvent(m_worker, new LogEvent(lmsg));
+            QTLOGGER_VERIF_POINT("own.posted");
         } else {
             BaseHandler::process(lmsg);
         }
@@ -135,8 +141,11 @@ private:
             if (event->type() == LogEvent::type()) {
                 auto logEvent = dynamic_cast<LogEvent *>(event);
                 if (logEvent) {
+                    QTLOGGER_VERIF_POINT("worker.before_process");
                     m_handler->BaseHandler::process(logEvent->lmsg);
+                    QTLOGGER_VERIF_POINT("worker.processed");
                     m_handler->m_pendingCount.fetchAndSubOrdered(1);
+                    QTLOGGER_VERIF_POINT("worker.decremented");
                 }
             }
         }
